@@ -403,6 +403,8 @@ def run(tier, seed):
     nv = max(n, 6)
     for mode, c, s_ in ((0, 1, nv + 2), (0, 2, nv + 2), (0, 3, nv + 2), (0, nv + 2, nv + 2), (1, 1, 2), (1, 2, 1), (1, 3, 3)):
         cases.append({'n': nv, 'nmax': nv + 1, 'mode': mode, 'counter': c, 'start': s_, 'ie': 1, 'vectored': True})
+        if nv != n:
+            cases.append({'n': nv, 'nmax': nv + 1, 'mode': mode, 'counter': c, 'start': s_, 'ie': 1})      # the same on core line 0
     # two active timing components: timer 1 auto-restarting (unrouted) under a few of the timer-0 cases
     for mode, c, s_ in ((0, nmax + 1, nmax + 1), (0, 3, nmax + 1), (1, 2, 3), (2, 0, nmax + 1)):
         for t1 in ((1, 2), (2, 1), (3, 3), (0, 2)):
